@@ -78,7 +78,16 @@ func (k *KVStore) isTableExpired(recycledAt int64) bool {
 
 func (k *KVStore) isCompactionOK(t *table.Table) bool {
 	s := t.Stats()
-	return float64(s.Garbage) >= float64(s.Allocated)*maxGarbageRatio
+	if s.Garbage == 0 {
+		return false
+	}
+	// Only tables that are not written to anymore are compacted, the rest of their memory
+	// is never filled: what counts is the share of garbage in what has been written.
+	// Measured against the allocated size, a table that was retired before it was 40%
+	// full never reached the threshold. It stayed allocated forever, even without a
+	// single live entry, and a workload with mixed entry sizes left such tables behind
+	// without bound.
+	return float64(s.Garbage) >= float64(s.Inuse+s.Garbage)*maxGarbageRatio
 }
 
 func (k *KVStore) Compaction() (bool, error) {
